@@ -28,6 +28,9 @@ def full(Y):
     for G in Y[1:]:
         Z = np.tensordot(Z, G, 1)
 
+    if len(Y) == 1:
+        Z = Z.copy()
+
     if Z.shape[0] == 1:
         Z = Z[0, ...]
 
